@@ -117,6 +117,11 @@ def grd8(P, R, L):
         ok = bool(emp_edges) and b.must_pass(bb, through_edges=emp_edges)
         R.check("GRD-8", KMM + "|false-only-for-empty-filter", ok, "%s:%s" % (b.file, line),
                 "a constant `false` is returned only when the selected filter is empty (no key of that range was added)", "empty-edges %s" % emp_edges)
+    # `no` comes from the policy alone: a filter consulted for a real block always had keys (PAIR-5), so a zero-length filter there
+    # is the policy's own output (the trait sets no minimum length) and the policy has to be asked about it.  On today's tree
+    # the LevelDB shortcut `empty filter => no match` answers instead: known finding D26 (the pinned suite asserts the shortcut).
+    R.check("GRD-8", KMM + "|no-comes-from-the-policy-alone", not falses, K.where(b),
+            "key_may_match returns false only as the policy's Ok(false), never as a constant", "constant `false` returns at line(s) %s" % [ln for (_, ln) in falses])
     # policy error edge and out-of-range edge return true
     pol = [c for c in b.calls() if (c.declared_name or "") == "filter_policy::FilterPolicy::key_may_match" and not b.is_cleanup(c.bb)]
     ok = bool(pol)
